@@ -151,6 +151,29 @@ def batch(ctx, n):
     ctx.sample({"batch_examples": [list(b) for b in strs[40:44]]})
 
 
+def after_concurrent_recv(ctx):
+    """Two threads have been reading with recv() at the same time; afterwards ill-formed text is still refused by every receive
+    call (nothing about validation is left switched off).  Schedules of C12's world, the outcome of the last call judged here."""
+    from .. import wire
+    from . import c12
+    stream = wire.sframe(1, b"a") + wire.sframe(1, b"b", 0) + wire.sframe(0, b"c", 1) + wire.sframe(1, b"\xff\xfe")
+    sc = dict(name="c06_after_recv2", receivers=2, stream=stream, recv_calls=2, read_cap=None, senders=[], bound=2,
+              max_runs=120 if ctx.tier == "quick" else 2000, line_level=3 if ctx.tier == "quick" else 1, after_recv_data=True)
+    name, traces = c12._explore_scenario((sc, ctx.seed, 20))
+    for tid, prefix, ev in traces:
+        fin = ev[0].get("final")
+        ctx.case(("after_concurrent_recv", tuple(prefix)))
+        ctx.traces += 1
+        if fin is None:
+            continue
+        if fin["kind"] == "ret" and fin["op"] == 1:
+            ctx.deviation(None, "schedule %s (choices %s): after two threads read with recv(), recv_data() delivered the ill-formed text %s"
+                          % (tid, prefix[:20], bytes(fin["data"])), {"clause": "C06.ill_formed_text_delivered", "schedule": prefix, "final": fin})
+        elif fin["kind"] == "raise" and fin["cls"] not in ("WebSocketPayloadException", "WebSocketProtocolException", "WebSocketConnectionClosedException"):
+            ctx.deviation(None, "schedule %s: recv_data() of ill-formed text raised %s" % (tid, fin["cls"]),
+                          {"clause": "C17.undocumented_exception", "schedule": prefix, "final": fin})
+
+
 def main(ctx: Ctx):
     ws = product(ctx)
     if ws:
@@ -158,6 +181,7 @@ def main(ctx: Ctx):
     batch(ctx, 4000 if ctx.tier == "quick" else 120000)
     from . import recv_common
     recv_common.run_for(ctx, "C06")
+    after_concurrent_recv(ctx)
     from . import app_common
     app_common.run_extra(ctx, "C06", app_common.fam_app_text, "app_text",
                          cross={"C13.delivered_something_the_server_did_not_send (duplicate?)", "C13.delivered_content_differs",
